@@ -44,7 +44,8 @@ CLAIMS = {
  "C11": ("value-flow of stop channels through constructors + who-may-call on Shutdown/Close + linearity of feeding subscriptions",
          "other", "Decides stop-channel wiring downwards, exit-on-parent-close rows of the consumer loops, Events() closed once by its "
          "only sender on exit, Shutdown requested only on the receiver's own lifecycle, every other Close forwarding to the one "
-         "exclusively-owned feeding subscription. 'Eventually' needs C12 and the scheduler.", "DESIGN.md §5 C11"),
+         "exclusively-owned feeding subscription; a typed subscription's loop blocks on nothing but its parent's event stream (blocking "
+         "inventory of the typed packages), so the cascade reaches typed descendants. 'Eventually' needs C12 and the scheduler.", "DESIGN.md §5 C11"),
  "C12": ("lifecycle typestate data-flow + exhaustive blocking-operation inventory with justified classes + must-fact analysis of join waits",
          "other", "Decides: ShutdownInitiated exactly once on every path to return of every run function; every blocking operation of the "
          "root/join/client packages falls in a justified class K1..K9; every join-wait is preceded on all paths by what stops its target; "
@@ -52,7 +53,8 @@ CLAIMS = {
          "DESIGN.md §5 C12"),
  "C13": ("phase-table extraction of _lister.run and _ticker.run + period value-flow",
          "other", "Decides that exactly one of tick/list/deliver is armed in every phase (lists one at a time, cycle has no dead end), "
-         "that the ticker is re-armed after each consumed result, drained without blocking and a pending tick is disabled on reset, and that "
+         "that the ticker is re-armed after each consumed result, drained without blocking and a pending tick is disabled on reset (Stop/drain "
+         "before the re-arming Reset, never after it; omissible only where the table's own rows make them no-ops), and that "
          "the configured period reaches the timer. Numeric spacing is not decided.", "DESIGN.md §5 C13"),
  "C16": ("decision-table extraction of monitor.run + who-may-call on Handler methods",
          "other", "Decides: OnInitialize exactly once before the event loop with the list taken at readiness; one callback per event by "
